@@ -684,6 +684,68 @@ theorem phase_lasts {C : TCfg} {B : Buckets} {ph : Phase} {n : Nat} (hC : Cert C
   exact min_stay hC ha hd hr0 (by omega) hge hw hfire
 
 
+/-! ## A polling phase whose poll decides to leave after a limit
+
+`StayPoll L`: the phase goes on (any events, polls included) and every poll delivered during the stay fired no later than `L`
+after the entry – which is what the decision theorems about the poll give: a poll that finds the time in the phase beyond
+its limit does not re-arm, it requests the exit (Tank: `C05.limits`; wintering: `Winter` policy).  Then the stay is bounded by
+`L + period + lag`: the call carrying the current token was armed at the entry or by one of those polls. -/
+inductive StayPoll (C : TCfg) (ph : Phase) (L : Nat) : TSt → TSt → Prop
+  | refl (ts : TSt) : StayPoll C ph L ts ts
+  | step {ts0 ts ts' : TSt} {e : TEv} : StayPoll C ph L ts0 ts → TStep C ts e ts' → inP ph ts'.s = true →
+      ((∃ σ, e = .fire σ) → ts'.now ≤ ts0.now + L) → StayPoll C ph L ts0 ts'
+
+theorem staypoll_bounded {C : TCfg} {B : Buckets} {ph : Phase} {n L : Nat} (hC : Cert C B)
+    (hb : noRearm C B ph = true) (hd : durLe C ph n = true) (hnr : ph.restart = [])
+    {ts0 ts : TSt} (h0 : TReach C ts0) (hin0 : inP ph ts0.s = true) (hat : ts0.armedAt ≤ ts0.now + L)
+    (hdur0 : ∀ t ∈ ph.t, ts0.s.armed = some t → ts0.armedDur ≤ n)
+    (h : StayPoll C ph L ts0 ts) :
+    TReach C ts ∧ inP ph ts.s = true ∧ ts.armedAt ≤ ts0.now + L ∧ (∀ t ∈ ph.t, ts.s.armed = some t → ts.armedDur ≤ n) := by
+  induction h with
+  | refl => exact ⟨h0, hin0, hat, hdur0⟩
+  | @step ts ts' e _ hstep hin' hfire ih =>
+      obtain ⟨hr, hin, h1, h2⟩ := ih
+      have hcert := reach_in_cert hC.closed (treach_reach hC.fresh hC.closed hC.armedOK hr)
+      refine ⟨TReach.step e hr hstep, hin', ?_⟩
+      cases hstep with
+      | plain m τ d σ any hm _ _ hmem hall =>
+          obtain ⟨s0, hs0, hleaf, hun, htouch, _⟩ := tplain_sentinel hmem
+          simp only [noRearm, List.all_eq_true, Bool.or_eq_true, Bool.not_eq_true', beq_iff_eq] at hb
+          rcases hb _ hcert with hb1 | hb1
+          · simp [hin] at hb1
+          · rcases hb1 m hm with hb2 | hb2
+            · rw [hnr] at hb2; simp at hb2
+            · rcases hb2 s0 hs0 with hb3 | hb3
+              · simp only [inP] at hin' hb3; rw [hleaf, hin'] at hb3; cases hb3
+              · obtain ⟨_, e1, e2, e3⟩ := hun hb3
+                refine ⟨by rw [e1]; exact h1, ?_⟩
+                intro t ht harm
+                rw [e2]; exact h2 t ht (e3 ▸ harm)
+      | fire τ d σ any _ _ _ hmem hall =>
+          have hτ := hfire ⟨σ, rfl⟩
+          unfold tfire at hmem
+          split at hmem
+          · simp at hmem
+          · simp only [List.mem_map] at hmem
+            obtain ⟨s', _, rfl⟩ := hmem
+            refine ⟨hτ, ?_⟩
+            intro t ht harm
+            exact allowed_le hd hin' ht harm hall
+
+/-- … hence, while the poll is the armed call, the clock is at most entry + L + period + lag -/
+theorem staypoll_time {C : TCfg} {B : Buckets} {ph : Phase} {n L : Nat} (hC : Cert C B)
+    (hb : noRearm C B ph = true) (he : entryArms C B ph = true) (hd : durLe C ph n = true) (hnr : ph.restart = [])
+    {ts tsE ts1 : TSt} {e : TEv} (hr : TReach C ts) (hout : inP ph ts.s = false) (hstep : TStep C ts e tsE)
+    (hin : inP ph tsE.s = true) (hstay : StayPoll C ph L tsE ts1) {t : MsgId} (ht : t ∈ ph.t) (harm : ts1.s.armed = some t) :
+    ts1.now ≤ tsE.now + L + n + C.lag := by
+  obtain ⟨hat, any, hall⟩ := entry_arms hC he hr hout hstep hin
+  have hrE := TReach.step e hr hstep
+  have hdur0 : ∀ t ∈ ph.t, tsE.s.armed = some t → tsE.armedDur ≤ n := fun t ht harm => allowed_le hd hin ht harm hall
+  obtain ⟨hr1, _, h1, h2⟩ := staypoll_bounded hC hb hd hnr hrE hin (by omega) hdur0 hstay
+  have := (deadline hr1).2 (by simp [harm])
+  have := h2 t ht harm
+  omega
+
 /-! ## Bundled checks (one kernel evaluation per phase) -/
 def timedOK (C : TCfg) (B : Buckets) (ph : Phase) : Bool :=
   noRearm C B ph && timeoutLeaves C B ph && armedIn B ph && entryArms C B ph
